@@ -385,6 +385,125 @@ fn session_inputs(report: &Report) {
     }
 }
 
+/// Ids of the wrong kind. Streams are keyed by (kind, id); every id-addressed writer route is
+/// called with the id of a stream of EACH kind (a finished session, a finished task, the thread
+/// itself, a fresh uuid, a hostile string). Whatever the route answers, every (kind, id) stream of
+/// the log must still read 0..n-1 in file order and validated replay must pass, and again after a
+/// restart and one more append.
+fn cross_kind_ids(report: &Report) {
+    use std::time::{Duration, Instant};
+    let rt = crate::provx::new_mt_rt();
+    let routes: Vec<(&str, Value)> = vec![
+        ("/threads/{id}/messages", json!({"content": "to this id", "actor_id": "u", "origin": "o"})),
+        ("/threads/{id}/branch", json!({"title": "b", "actor_id": "u", "origin": "o"})),
+        ("/threads/{id}/handoff", json!({"title": "h", "summary_markdown": "s", "actor_id": "u", "origin": "o"})),
+        ("/threads/{id}/compaction-checkpoint", json!({"summary_markdown": "s", "actor_id": "u", "origin": "o"})),
+        ("/threads/{id}/compaction-auto", json!({"stride_messages": 1, "actor_id": "u", "origin": "o"})),
+        ("/threads/{id}/compaction-auto-schedule", json!({"stride_messages": 1, "execute": true, "actor_id": "u", "origin": "o"})),
+        ("/threads/{id}/provider-cursor-rotate", json!({"provider": "openresponses", "endpoint": "http://e", "model": "m", "reason": "r", "actor_id": "u", "origin": "o"})),
+        ("/sessions/{id}/input", json!({"input": "hello"})),
+        ("/sessions/{id}/cancel", json!({})),
+        ("/tasks/{id}/cancel", json!({"reason": "r"})),
+        ("/tasks/{id}/stdin", json!({"chunk_b64": "eA=="})),
+        ("/tasks/{id}/signal", json!({"signal": "TERM"})),
+    ];
+    let mut accepted_for_own_kind = 0usize;
+    for id_kind in ["session", "task", "thread", "fresh_session_not_started", "unknown_uuid", "hostile"] {
+        for (route, body) in &routes {
+            let app = crate::provx::App::new(rt.clone(), None);
+            // a thread with one message and its stub run (a session stream), one finished task
+            let thread = app.ensure_thread();
+            let (_, sid) = match app.post_and_wait(&thread, "hello", None, Duration::from_secs(20)) {
+                Ok(x) => x,
+                Err(e) => crate::common::machinery_failure(&format!("c01.cross_kind_ids: the first run did not end: {e}")),
+            };
+            let (st, b) = app.request("POST", "/tasks", Some(json!({"tool": "bash", "args": {"command": "true"}})));
+            let task = serde_json::from_slice::<Value>(&b).ok().and_then(|v| v["task_id"].as_str().map(|s| s.to_string())).unwrap_or_default();
+            if st >= 300 || task.is_empty() {
+                crate::common::machinery_failure(&format!("c01.cross_kind_ids: POST /tasks answered {st}"));
+            }
+            let t0 = Instant::now();
+            loop {
+                let (_, b) = app.request("GET", &format!("/tasks/{task}"), None);
+                let stt = serde_json::from_slice::<Value>(&b).ok().and_then(|v| v["status"].as_str().map(|s| s.to_string())).unwrap_or_default();
+                if matches!(stt.as_str(), "exited" | "failed" | "cancelled") {
+                    break;
+                }
+                if t0.elapsed() > Duration::from_secs(20) {
+                    crate::common::machinery_failure("c01.cross_kind_ids: the task did not end");
+                }
+                std::thread::sleep(Duration::from_millis(5));
+            }
+            let fresh = {
+                let (_, b) = app.request("POST", "/sessions", None);
+                serde_json::from_slice::<Value>(&b).ok().and_then(|v| v["session_id"].as_str().map(|s| s.to_string())).unwrap_or_default()
+            };
+            let id = match id_kind {
+                "session" => sid.clone(),
+                "task" => task.clone(),
+                "thread" => thread.clone(),
+                "fresh_session_not_started" => fresh.clone(),
+                "unknown_uuid" => "7facdca9-2f44-4b00-9329-65eec1b69ad5".to_string(),
+                _ => "..%2Fevents".to_string(),
+            };
+            let uri = route.replace("{id}", &id);
+            let (status, _) = app.request("POST", &uri, Some(body.clone()));
+            let own = (route.starts_with("/threads/") && id_kind == "thread") || (route.starts_with("/sessions/") && id_kind == "fresh_session_not_started");
+            if own && status < 300 {
+                accepted_for_own_kind += 1;
+            }
+            // let whatever the call started come to rest: the log stops growing
+            let mut len = app.log_events().len();
+            let t0 = Instant::now();
+            let mut quiet = 0;
+            while quiet < 3 && t0.elapsed() < Duration::from_secs(10) {
+                std::thread::sleep(Duration::from_millis(15));
+                let now = app.log_events().len();
+                quiet = if now == len { quiet + 1 } else { 0 };
+                len = now;
+            }
+            report.eval(Some(&("cross_kind_ids", id_kind, route)));
+            report.count("cross_kind_id_cases", 1);
+            let case = json!({"engine": "H-histories", "harness": "c01.cross_kind_ids", "route": route, "id_of": id_kind, "http_status": status});
+            let check = |phase: &str| -> bool {
+                let events = app.log_events();
+                let mut next: std::collections::HashMap<(rip_kernel::StreamKind, String), u64> = std::collections::HashMap::new();
+                for e in &events {
+                    let n = next.entry((e.stream_kind(), e.stream_id().to_string())).or_insert(0);
+                    if e.seq != *n {
+                        report.violation(
+                            &format!("C01:stream_numbering:cross_kind_id:{id_kind}:{route}"),
+                            case.clone(),
+                            &format!("POST {route} with the id of a {id_kind} answered {status}; {phase}: stream ({:?}, id of the {id_kind}) has seq {} where {} is due ({})", e.stream_kind(), e.seq, *n, crate::common::compact(&serde_json::to_value(&e.kind).unwrap_or_default(), 160)),
+                        );
+                        return false;
+                    }
+                    *n += 1;
+                }
+                if let Err(e) = rip_log::EventLog::new(app.data.join("events.jsonl")).and_then(|l| l.replay_validated()) {
+                    report.violation(&format!("C01:validated_replay:cross_kind_id:{id_kind}:{route}"), case.clone(), &format!("{phase}: validated replay fails: {e}"));
+                    return false;
+                }
+                true
+            };
+            if !check("after the call") {
+                continue;
+            }
+            // restart on the same store, one more message on the thread
+            let data = app.data.clone();
+            let root = app.root.clone();
+            if let Ok(engine) = ripd::SessionEngine::new(data, root, None) {
+                let _ = engine.continuities().append_message(&thread, "u".into(), "o".into(), "after restart".into());
+                drop(engine);
+                check("after a restart and one more append");
+            }
+        }
+    }
+    if accepted_for_own_kind < 8 {
+        crate::common::machinery_failure(&format!("c01.cross_kind_ids: only {accepted_for_own_kind} routes accepted an id of their own kind: the request bodies are out of date"));
+    }
+}
+
 pub fn replay(report: &Report, case: &Value) {
     let pre = match case["pre_state"].as_str().unwrap_or("Warm") {
         "Restarted" => Pre::Restarted,
@@ -431,7 +550,26 @@ pub fn run(opts: Opts) -> i32 {
     crate::sched::install_hooks();
     if let Some(path) = &opts.replay {
         let case = crate::common::load_replay_case(path);
-        replay(&report, &case);
+        match case["harness"].as_str().unwrap_or("") {
+            // sequential parts: re-run the (seconds-long) enumeration judging only the saved case
+            "c01.session_inputs" => {
+                report.replay_by_re_enumeration(path);
+                session_inputs(&report);
+            }
+            "c01.cross_kind_ids" => {
+                report.replay_by_re_enumeration(path);
+                cross_kind_ids(&report);
+            }
+            "c07.termination_numbering" => {
+                report.replay_by_re_enumeration(path);
+                crate::c07::termination_numbering_sweep(&report);
+            }
+            h if h.starts_with("c16.") => {
+                report.replay_by_re_enumeration(path);
+                crate::c16::numbering_sweep(&report);
+            }
+            _ => replay(&report, &case),
+        }
         return report.finish();
     }
     let tier = report.tier();
@@ -477,8 +615,12 @@ pub fn run(opts: Opts) -> i32 {
     });
     // sequential part: the counters through every branch of the provider tool loop
     crate::c16::numbering_sweep(&report);
+    // sequential part: the counters through every way a provider response can end
+    crate::c07::termination_numbering_sweep(&report);
     // sequential part: every way of starting runs on ONE session through the HTTP API (input once,
     // twice in a row, twice after the first run ended, on two sessions)
     session_inputs(&report);
+    // sequential part: every id-addressed writer route called with the id of a stream of every kind
+    cross_kind_ids(&report);
     report.finish()
 }
